@@ -1,12 +1,12 @@
 SPECIFICATION Spec
 CONSTANTS
   Threads = {1, 2, 3}
-  Prog <- ProgList2
+  Prog <- ProgIt3
   HashOf <- HashSame
-  InitKeys <- Init0
+  InitKeys <- Init3
   N0 = 2
   DCAP = 2
-  MaxNodes = 6
+  MaxNodes = 8
   MaxTabs = 1
   STRIDE = 1
   MAXRES = 100
